@@ -77,11 +77,7 @@ func (c *compiler) emitPush(value interface{}) int {
 }
 
 func (c *compiler) makeConstant(i interface{}) []byte {
-	hashable := true
-	switch reflect.TypeOf(i).Kind() {
-	case reflect.Slice, reflect.Map:
-		hashable = false
-	}
+	hashable := isHashable(i)
 
 	if hashable {
 		if p, ok := c.index[i]; ok {
@@ -99,6 +95,24 @@ func (c *compiler) makeConstant(i interface{}) []byte {
 		c.index[i] = p
 	}
 	return encode(p)
+}
+
+// isHashable reports whether a constant can be a key of the constants index.
+// It cannot if it is nil, a slice, a map or a struct that holds one of them
+// (the result of a ConstExpr call may be any value): such a constant is not deduplicated.
+func isHashable(i interface{}) (ok bool) {
+	t := reflect.TypeOf(i)
+	if t == nil || !t.Comparable() {
+		return false
+	}
+	defer func() {
+		if r := recover(); r != nil {
+			// An interface field that holds a slice or a map.
+			ok = false
+		}
+	}()
+	_ = map[interface{}]struct{}{i: {}}
+	return true
 }
 
 func (c *compiler) placeholder() []byte {
